@@ -5,6 +5,7 @@ the LF result (C08), and the decoder lint reads files with folds both back to th
 import ReuseVerif.Lemmas.C09Step
 import ReuseVerif.Theorems.C08
 import ReuseVerif.Model.Window
+import ReuseVerif.Lemmas.History
 
 namespace C09L
 open Py Model Spec C08L C10L
@@ -54,5 +55,100 @@ theorem mapWritten_written {f : Text → Text} {a : AnnotateOut} {T : Text} (h :
   | written t' => simp only [AnnotateOut.mapWritten, AnnotateOut.written.injEq] at h; exact ⟨t', rfl, h.symm⟩
   | skipped => cases h
   | failed e => cases h
+
+/-! ### histories on files kept in a line-ending form -/
+
+/-- a line-ending form `f` of LF texts (`toCRLF`, `toCR`): annotating the form gives the form of the result, and the decoder
+    folds the form back -/
+structure LEForm (f : Text → Text) : Prop where
+  annot : ∀ (c : HdrCfg) (replace : Bool) (info : Extracted) (u : Text), NoCR u → '\n' ∈ u →
+    annotateText c replace false info (f u) = (annotateText c replace false info u).mapWritten f
+  fold : ∀ u, NoCR u → foldLineEndings (f u) = u
+
+theorem leForm_crlf : LEForm toCRLF :=
+  ⟨fun c r i u h1 h2 => C08.C08_line_endings_crlf c r i u h1 h2, fun _ h => fold_crlf h⟩
+
+theorem leForm_cr : LEForm toCR :=
+  ⟨fun c r i u h1 h2 => C08.C08_line_endings_cr c r i u h1 h2, fun _ h => fold_cr h⟩
+
+/-- whatever is written holds a line feed -/
+theorem written_has_lf {c : HdrCfg} {replace skip : Bool} {info : Extracted} {u t' : Text} (hcr : NoCR u)
+    (hw : annotateText c replace skip info u = .written t') : '\n' ∈ t' := by
+  obtain ⟨p, _, ht⟩ := annotateText_parts hw
+  rw [detect_lf hcr] at ht
+  rw [ht, placeHeader_parts]
+  simp [retranslate]
+
+/-- one step on the form against the step on the LF text -/
+theorem step_form {f : Text → Text} (hf : LEForm f) {o : Op} {u : Text} (hcr : NoCR u) (hlf : '\n' ∈ u) :
+    stepText (f u) o = f (nextLF f u o) ∧
+    (∀ T, annotateText o.c o.replace o.skipExisting o.info (f u) = .written T →
+      annotateText o.c o.replace false o.info u = .written (stepText u o.noSkip)) := by
+  unfold nextLF
+  cases hw : annotateText o.c o.replace o.skipExisting o.info (f u) with
+  | written T =>
+    have hw' := written_noskip hw
+    rw [hf.annot o.c o.replace o.info u hcr hlf] at hw'
+    obtain ⟨t', ha, hT⟩ := mapWritten_written hw'
+    have hst : stepText u o.noSkip = t' := by unfold stepText Op.noSkip; simp only [ha]
+    refine ⟨?_, fun T' hT' => by rw [hst]; exact ha⟩
+    rw [hst]
+    unfold stepText
+    simp only [hw, hT]
+  | skipped => exact ⟨by unfold stepText; simp only [hw], fun T h => by cases h⟩
+  | failed e => exact ⟨by unfold stepText; simp only [hw], fun T h => by cases h⟩
+
+/-- **A history on a CRLF / CR file.** -/
+theorem history_form {norm : Text → Text} {f : Text → Text} (hf : LEForm f) (u : Text) (ops : List Op)
+    (hg : GoodRunForm norm f u ops) (hcr : NoCR u) (hlf : '\n' ∈ u) :
+    run (f u) ops = f (runLF f u ops) ∧ foldLineEndings (run (f u) ops) = runLF f u ops ∧
+    Declares norm (extractRaw (runLF f u ops))
+      ((extractRaw u).cpr ++ (accumulated (f u) ops).1) ((extractRaw u).lic ++ (accumulated (f u) ops).2) := by
+  induction hg with
+  | nil u =>
+    refine ⟨rfl, hf.fold u hcr, ?_⟩
+    simpa [runLF, accumulated] using declares_self norm (extractRaw u)
+  | cons u o os hstep _ ih =>
+    obtain ⟨hst, hann⟩ := step_form hf (o := o) hcr hlf
+    rw [run_cons, hst]
+    unfold accumulated
+    simp only [runLF]
+    cases hw : annotateText o.c o.replace o.skipExisting o.info (f u) with
+    | written T =>
+      obtain ⟨hgood, hcr'⟩ := hstep ⟨T, hw⟩
+      have ha := hann T hw
+      have hnext : nextLF f u o = stepText u o.noSkip := by unfold nextLF; simp only [hw]
+      have hT : T = f (stepText u o.noSkip) := by
+        have := hst; unfold stepText at this; simp only [hw] at this; rw [this, hnext]
+      rw [hnext] at ih ⊢
+      obtain ⟨i1, i2, i3⟩ := ih hcr' (written_has_lf hcr ha)
+      refine ⟨i1, i2, ?_⟩
+      simp only
+      rw [hT]
+      have hs : Declares norm (extractRaw (stepText u o.noSkip)) ((extractRaw u).cpr ++ o.info.cpr) ((extractRaw u).lic ++ o.info.lic) :=
+        step_declares (o := o.noSkip) ha hgood
+      have ih1 : Declares norm (extractRaw (runLF f (stepText u o.noSkip) os)) (extractRaw (stepText u o.noSkip)).cpr
+          (extractRaw (stepText u o.noSkip)).lic :=
+        ⟨fun x hx => i3.1 x (List.mem_append_left _ hx), fun x hx => i3.2 x (List.mem_append_left _ hx)⟩
+      have h3 := declares_trans ih1 hs
+      refine ⟨fun x hx => ?_, fun x hx => ?_⟩
+      · rcases List.mem_append.mp hx with h | h
+        · exact h3.1 x (List.mem_append_left _ h)
+        · rcases List.mem_append.mp h with h | h
+          · exact h3.1 x (List.mem_append_right _ h)
+          · exact i3.1 x (List.mem_append_right _ h)
+      · rcases List.mem_append.mp hx with h | h
+        · exact h3.2 x (List.mem_append_left _ h)
+        · rcases List.mem_append.mp h with h | h
+          · exact h3.2 x (List.mem_append_right _ h)
+          · exact i3.2 x (List.mem_append_right _ h)
+    | skipped =>
+      have hnext : nextLF f u o = u := by unfold nextLF; simp only [hw]
+      rw [hnext] at ih ⊢
+      exact ih hcr hlf
+    | failed e =>
+      have hnext : nextLF f u o = u := by unfold nextLF; simp only [hw]
+      rw [hnext] at ih ⊢
+      exact ih hcr hlf
 
 end C09L
